@@ -203,7 +203,7 @@ pub struct MutCase {
     pub b: u32,
 }
 pub struct Mutations;
-pub const MUT_NAMES: [&str; 20] = ["strict_prefix", "bad_magic", "bad_version", "count_mismatch", "count_extreme", "unsorted_transitions", "duplicate_transition", "type_index_out_of_bounds", "abbr_index_out_of_bounds", "abbr_unterminated", "dst_byte_2", "forbidden_isut_without_isstd", "footer_no_leading_newline", "footer_no_trailing_newline", "footer_nul", "footer_colon", "footer_malformed_rule", "utoff_i32_min", "trailing_byte_after_v1", "v1_block_magic"];
+pub const MUT_NAMES: [&str; 21] = ["strict_prefix", "bad_magic", "bad_version", "count_mismatch", "count_extreme", "unsorted_transitions", "duplicate_transition", "type_index_out_of_bounds", "abbr_index_out_of_bounds", "abbr_unterminated", "dst_byte_2", "forbidden_isut_without_isstd", "footer_no_leading_newline", "footer_no_trailing_newline", "footer_nul", "footer_colon", "footer_malformed_rule", "utoff_i32_min", "trailing_byte_after_v1", "v1_block_magic", "v1_block_without_types"];
 
 /// byte layout of the governing data block (the 64-bit block of v2+, the only block of v1)
 struct Layout {
@@ -315,7 +315,19 @@ pub fn mutate(f: &ZoneFile, kind: u8, a: u32, b: u32) -> Option<Vec<u8>> {
         }
         17 => { let p = l.types() + (a as usize % typecnt) * 6; bytes[p..p + 4].copy_from_slice(&i32::MIN.to_be_bytes()); }
         18 => { if !v1 { return None; } bytes.push(a as u8); }
-        _ => { if v1 { return None; } bytes[a as usize % 4] ^= 0x20; }
+        19 => { if v1 { return None; } bytes[a as usize % 4] ^= 0x20; }
+        _ => {
+            // the 32-bit block of a v2+ file replaced by an empty one whose header says so consistently:
+            // no types (and / or no designation bytes) is not a legal header, even for the block that is skipped
+            if v1 { return None; }
+            let mut out = bytes[..20].to_vec();
+            let (typ, chr): (u32, u32) = match a % 3 { 0 => (0, 0), 1 => (0, 1), _ => (1, 0) };
+            for c in [0u32, 0, 0, 0, typ, chr] { out.extend(c.to_be_bytes()); }
+            if typ == 1 { out.extend([0u8, 0, 0, 0, 0, 0]); }
+            if chr == 1 { out.push(0); }
+            out.extend(&bytes[l.hdr..]);
+            bytes = out;
+        }
     }
     Some(bytes)
 }
@@ -329,7 +341,7 @@ impl SubCheck for Mutations {
         "case = (valid written file, mutation kind, two selectors): one defect is introduced by construction (truncation, bad magic/version, a count that disagrees with the data or is extreme, unsorted/duplicate transitions, type or abbreviation index out of bounds, unterminated abbreviation, dst byte 2, forbidden indicator pair, footer without newlines / with NUL / with ':' / with a malformed rule, utoff = i32::MIN, trailing byte); the file must be rejected with an error, without panic and within the heap bound; every case is one mutation away from an accepted file (non-trivial)"
     }
     fn strategy(&self) -> Option<BoxedStrategy<MutCase>> {
-        Some((prop_oneof![5 => zone_file(12), 1 => zone_file(200)], 0u8..20, any::<u32>(), any::<u32>()).prop_map(|(file, kind, a, b)| MutCase { file, kind, a, b }).boxed())
+        Some((prop_oneof![5 => zone_file(12), 1 => zone_file(200)], 0u8..21, any::<u32>(), any::<u32>()).prop_map(|(file, kind, a, b)| MutCase { file, kind, a, b }).boxed())
     }
     fn check(&self, c: &MutCase, obs: &mut Obs) -> Result<(), String> {
         let name = MUT_NAMES[c.kind as usize];
